@@ -34,12 +34,16 @@ Mk4(k1, v1, k2, v2, k3, v3, k4, v4) == M(k1 :> v1 @@ k2 :> v2 @@ k3 :> v3 @@ k4 
 
 ---------------------------------------------------------------------------
 (* C17 *)
+a %% b == M([k \in Keys(a) \cup Keys(b) |-> IF Has(b, k) THEN At(b, k) ELSE At(a, k)])
 X(b) == IF b THEN Req ELSE I("1")
+(* positions 6 and 7: a marker two levels below a list entry, and below a list nested in a list -- *)
+(* what has to be pruned there is not visible from the entry's own size                         *)
 Tree17(p) == Mk3("a", X(p[1]), "b", Mk2("c", X(p[2]), "d", L(<<X(p[3]), I("7")>>)), "l", L(<<X(p[4]), Single("e", X(p[5]))>>))
+             %% Mk2("n", L(<<Single("f", Mk2("g", X(p[6]), "h", I("1")))>>), "q", L(<<L(<<Mk2("c", X(p[7]), "d", I("1"))>>)>>))
 Uppers17 == {Null, Single("a", I("2")), Single("b", Single("c", I("3"))), Single("l", L(<<I("9")>>)),
              Single("b", Single("d", L(<<I("5")>>))), Single("z", Req), Mk2("a", I("2"), "b", Mk2("c", I("3"), "d", L(<<I("5")>>)))}
 CasesC17(lazy) ==
-  {[layers |-> IF IsNull(u) THEN <<Tree17(p)>> ELSE <<Tree17(p), u>>] : p \in [1..5 -> BOOLEAN], u \in Uppers17}
+  {[layers |-> IF IsNull(u) THEN <<Tree17(p)>> ELSE <<Tree17(p), u>>] : p \in [1..7 -> BOOLEAN], u \in Uppers17}
 
 ---------------------------------------------------------------------------
 (* C15 / C16: the edit catalogue *)
